@@ -57,6 +57,25 @@ def compare_modes(flat, fn):
             sh = aspast.shape_term(y)
             if shapes.setdefault(y.name, sh) != sh:
                 return 'predicate %s has two shapes in function-term mode: %r and %r' % (y.name, shapes[y.name], sh)
+    # an entity written as the counted value of an aggregate ('the number of booking occurrences') is a term of the same predicate:
+    # same flattening, same shape
+    for a, b in zip(sf, sn):
+        tf, tn = aspast.tuple_terms_of(a), aspast.tuple_terms_of(b)
+        if len(tf) != len(tn):
+            # a term that becomes nested only in function-term mode is still a function term in both modes (it has arguments in both)
+            return 'different number of entity terms in aggregate tuples in %s / %s' % (a, b)
+        for x, y in zip(tf, tn):
+            if x.name != y.name:
+                return 'aggregate tuple term %s vs %s' % (x, y)
+            fx = [str(t) for t in x.arguments]
+            fy = []
+            for t in y.arguments:
+                fy += aspast.flatten_term(t)
+            if fx != fy:
+                return 'aggregate tuple term %s prints as %s with functions: flattening gives %r, the default program has %r' % (x, y, fy, fx)
+            sh = aspast.shape_term(y)
+            if y.name in shapes and shapes[y.name] != sh:
+                return 'predicate %s has two shapes in function-term mode: %r as an atom and %r as the counted term of an aggregate' % (y.name, shapes[y.name], sh)
     return None
 
 
